@@ -15,6 +15,10 @@ type Data any
 
 // UnpackInterfaces implements the UnpackInterfaceMessages.UnpackInterfaces method
 func (cs ClientState) UnpackInterfaces(unpacker codectypes.AnyUnpacker) error {
+	if cs.ConsensusState == nil {
+		// nothing to unpack; Validate rejects a client state without consensus state
+		return nil
+	}
 	return cs.ConsensusState.UnpackInterfaces(unpacker)
 }
 
